@@ -12,7 +12,7 @@ func init() {
 	register(&CheckDef{
 		ID:    "C03",
 		Level: "exploration",
-		Rule: "seeded generation of SQLite WAL programs on a primary: write transactions of any number of frames with repeated pages, split frame-header writes, rolled-back frames later overwritten, log restarts with new salts after application checkpoints (PASSIVE/FULL/RESTART/TRUNCATE) and LiteFS's own checkpoints, growth and shrink incl. across 256-page blocks, both checksum byte orders, all page sizes, several connections taking turns, connection close/reopen and last-connection close; after every release of the WAL write lock the position, the new LTX file (pages, size, WAL offset/size/salts) and the image are compared with the simulated SQLite side; a case is one executed operation; distinct = distinct (pagesize, operation, outcome, grow/shrink/same, repeat, new-log, byte order, cross-256) tuple; non-trivial = run with at least one captured WAL commit",
+		Rule:  "seeded generation of SQLite WAL programs on a primary: write transactions of any number of frames with repeated pages, split frame-header writes, rolled-back frames later overwritten, log restarts with new salts after application checkpoints (PASSIVE/FULL/RESTART/TRUNCATE) and LiteFS's own checkpoints, growth and shrink incl. across 256-page blocks, both checksum byte orders, all page sizes, several connections taking turns, connection close/reopen and last-connection close; after every release of the WAL write lock the position, the new LTX file (pages, size, WAL offset/size/salts) and the image are compared with the simulated SQLite side; a case is one executed operation; distinct = distinct (pagesize, operation, outcome, grow/shrink/same, repeat, new-log, byte order, cross-256) tuple; non-trivial = run with at least one captured WAL commit",
 		Run:   runC03,
 		NonTrivial: func(r *Run) bool {
 			return r.Stats["c03.commit.checked"] > 0
